@@ -964,8 +964,11 @@ def rule_key_location_injective(chk, repo, rid):
         if fn is None:
             raise AnalysisError(f"{cn}.to_path missing")
         kp = params(fn)[1]
-        ups = [c for c in calls_in(fn, tail="update")]
-        ok = bool(ups) and all(len(c.args) == 1 and U(c.args[0]) in (f"{kp}.encode('utf-8')", f"{kp}.encode()") for c in ups)
+        # what is fed to the hash: m.update(X) calls and one-shot constructor arguments hashlib.md5(X)
+        fed = [c.args[0] for c in calls_in(fn, tail="update") if len(c.args) == 1] + \
+              [c.args[0] for c in calls_in(fn) if (call_name(c) or "").startswith("hashlib.") and len(c.args) == 1]
+        ok = bool(fed) and all(U(a) in (f"{kp}.encode('utf-8')", f"{kp}.encode()") for a in fed) and \
+            all(len(c.args) == 1 for c in calls_in(fn, tail="update"))
         hexd = [c for c in calls_in(fn, tail="hexdigest")]
         sliced = any(isinstance(n, ast.Subscript) and "digest" in U(n.value) for n in body_walk(fn))
         chk.ob(rid, f"{ci.qual}.to_path", ok and bool(hexd) and not sliced,
